@@ -11,7 +11,7 @@ import sys
 from pathlib import PurePath
 
 from vlib import coqrun
-from vlib.c10_decls import LOC_CODE, LOC_KEY, Module, Names, T, Var, gen_module, gen_type
+from vlib.c10_decls import LOC_CODE, LOC_KEY, Module, Names, T, Var, gen_module, gen_type, gen_uses_chain
 from vlib.c10_gen import gen_alloc_model
 from vlib.common import COQ, REPO
 from vlib.py2coq import Unsupported
@@ -32,7 +32,7 @@ META = {
 }
 
 COQ_FILES = ["C10/GenAlloc.v", "C10/Layout.v", "C10/Alloc.v", "C10/Paths.v", "C10/AllocProofs.v",
-             "C10/OverrideProofs.v", "C10/PropsC10.v"]
+             "C10/OverrideProofs.v", "C10/AddrTemplates.v", "C10/PropsC10.v"]
 IMPORTS = "From Verif Require Import Base.PyInt C10.GenAlloc C10.Layout C10.Alloc.\nOpen Scope string_scope.\nOpen Scope Z_scope.\n"
 TWO256 = 2**256
 MAXES = {"storage": 2**256, "transient": 2**256, "code": 0x6000}
@@ -128,8 +128,11 @@ def gen_cases(ctx, n, salt, override_friendly=False):
     for i in range(n):
         names = Names(f"_{i}_")
         transient_ok = rnd.random() < 0.6
-        mod = gen_module(rnd, names, "top", rnd.choice([0, 1, 1, 2]), transient_ok, big=rnd.random() < 0.5,
-                         code_budget=None, override_friendly=override_friendly)
+        if rnd.random() < 0.15:
+            mod = gen_uses_chain(rnd, names, transient_ok)     # `uses` chains 3 deep, all locations in nested modules
+        else:
+            mod = gen_module(rnd, names, "top", rnd.choice([0, 1, 1, 2, 3]), transient_ok, big=rnd.random() < 0.5,
+                             code_budget=None, override_friendly=override_friendly)
         cases.append(mod)
     return cases
 
@@ -574,6 +577,8 @@ def run(ctx):
     except Exception as e:  # source no longer has the anchored shape
         gen_err = f"{type(e).__name__}: {e}"
     b = {"ok": False, "file": "C10/GenAlloc.v", "failed_lemma": None, "out": gen_err or ""}
+    # C03/LIR.v (owned by the C03 worker, static) is needed by AddrTemplates.v; never force-rebuild someone else's file
+    coqrun.build_sequence(["C03/LIR.v"], force=False)
     if gen_err is None:
         b = ctx.coq_build(COQ_FILES)
     # the executable model is usable if the model files compiled (a proof file may have failed)
@@ -590,6 +595,11 @@ def run(ctx):
     n3, f3 = run_glue(ctx, model_ok, 12 if quick else 60)
     total += n3
     found |= f3
+    from vlib import c10_addr
+    addr_ok = gen_err is None and (COQ / "C10" / "AddrTemplates.vo").exists() and (b["ok"] or "AddrTemplates" not in str(b.get("file", "")))
+    n4, f4 = c10_addr.run(ctx, model_ok and addr_ok, 240 if quick else 2000)
+    total += n4
+    found |= f4
     if gen_err is not None or not b["ok"]:
         if not found:
             found = search_small(ctx)
